@@ -71,6 +71,9 @@ def chain_oracle(case, obs, aspects):
     if 'keys' in aspects and set(got) != set(exp):
         # the name of a task is the directory of its results and part of the key text of its dependants
         return f'the tasks are named {sorted(got)}; by the naming rule of the pinned release they are {sorted(exp)}'
+    if 'params' in aspects and set(got) != set(exp):
+        # `uses ... as ns` mounts a config under the namespace written there, composed with the namespaces around it
+        return f'the tasks are mounted as {sorted(got)}; the configuration mounts them as {sorted(exp)}'
     if set(got) != set(exp):
         return None
     by_id = {c['id']: c for c in case['classes']}
@@ -200,7 +203,7 @@ class ChainBuild(Suite):
                         'ctx/top.json': {'uses': 'ctx/a.json as ns'}, 'ctx/a.json': {'x': 9, 'uses': 'ctx/b.json'},
                         'ctx/b.json': {'y': 9}},
                  base={'name': 'm', 'data': {'tasks': ['@M.*'], 'uses': ['first.json as ns', 'second.json as ns2']}},
-                 context={'file': 'ctx/top.json'}),
+                 context={'file': 'ctx/top.json'}, hist=True),
             # a Meta that carries `abstract = False`: the task is declared, not abstract
             dict(classes=[dict(K(0, 'Base', abstract=True), name='base'), dict(K(1, 'Concrete', abstract=False), name='concrete'),
                           dict(K(2, 'Dep', meta_inputs=[{'cls': 1}]), name='dep')],
@@ -318,6 +321,50 @@ class ChainBuild(Suite):
                           dict(K(2, 'Dep', meta_inputs=[{'name': 'n::x1'}, {'name': 'n::x'}, {'name': 'n2::x'}]), name='dep')],
                  files={'p.json': {'tasks': ['@M.M1', '@M.M2'], 'x': 2}},
                  base={'name': 'm', 'data': {'tasks': ['@M.Dep'], 'uses': ['p.json as n', 'p.json as n2']}}, context=None),
+            # an absent optional input declared before inputs that are present: positions and names stay in step
+            dict(classes=[dict(K(0, 'A', params=[P('x')]), name='a'), dict(K(1, 'B', params=[P('x')]), name='b'),
+                          dict(K(2, 'Dep', meta_inputs=[{'cls': 0}],
+                                 param_inputs=[dict(ref={'name': 'ghost'}, default=[7]), dict(ref={'name': 'b'}, default=[9]),
+                                               dict(ref={'name': 'phantom'}, default=[None])]), name='dep'),
+                          dict(K(3, 'Top', meta_inputs=[{'cls': 2}]), name='top')],
+                 files={}, base={'name': 'm', 'data': {'tasks': ['@M.*'], 'x': 1}}, context=None, hist=True),
+            # task classes derived from other task classes, each with a Meta of its own (the base declared first): other
+            # inputs than the base, a concrete class derived from an abstract base, a base that is excluded while the
+            # derived class stays
+            dict(classes=[dict(K(0, 'Src', params=[P('x')]), name='src'), dict(K(1, 'Other', params=[P('x')]), name='other'),
+                          dict(K(2, 'Base', meta_inputs=[{'cls': 0}]), name='base'),
+                          dict(K(3, 'Derived', meta_inputs=[{'cls': 1}], params=[P('y', default=[3])]), name='derived', task_base=2),
+                          dict(K(4, 'Top', meta_inputs=[{'cls': 3}, {'cls': 2}]), name='top')],
+                 files={}, base={'name': 'm', 'data': {'tasks': ['@M.*'], 'x': 1}}, context=None, hist=True, records=True),
+            dict(classes=[dict(K(0, 'Src', params=[P('x')]), name='src'),
+                          dict(K(1, 'Base', meta_inputs=[{'cls': 0}], abstract=True), name='base'),
+                          dict(K(2, 'Concrete', meta_inputs=[{'cls': 0}], abstract=False), name='concrete', task_base=1),
+                          dict(K(3, 'Top', meta_inputs=[{'cls': 2}]), name='top')],
+                 files={}, base={'name': 'm', 'data': {'tasks': ['@M.*'], 'x': 1}}, context=None),
+            dict(classes=[dict(K(0, 'Src', params=[P('x')]), name='src'),
+                          dict(K(1, 'Base', meta_inputs=[{'cls': 0}]), name='base'),
+                          dict(K(2, 'Derived', meta_inputs=[{'name': 'ghost'}]), name='derived', task_base=1)],
+                 files={}, base={'name': 'm', 'data': {'tasks': ['@M.*'], 'x': 1}}, context=None),
+            dict(classes=[dict(K(0, 'Model', params=[P('x')]), name='model'),
+                          dict(K(1, 'TunedModel', params=[P('x')]), name='tuned_model', task_base=0),
+                          dict(K(2, 'Report', param_inputs=[dict(ref={'name': 'tuned_model'}, default=[0])]), name='report'),
+                          dict(K(3, 'Coll', meta_inputs=[{'name': '~tuned_.*'}]), name='coll')],
+                 files={}, base={'name': 'm', 'data': {'tasks': ['@M.*'], 'excluded_tasks': ['@M.Model'], 'x': 1}}, context=None),
+            dict(classes=[dict(K(0, 'Model', params=[P('x')]), name='model'),
+                          dict(K(1, 'TunedModel', params=[P('x')]), name='tuned_model', task_base=0),
+                          dict(K(2, 'Report', meta_inputs=[{'cls': 1}]), name='report')],
+                 files={'p.json': {'tasks': ['@M.*'], 'excluded_tasks': ['@M.Model'], 'x': 2}},
+                 base={'name': 'm', 'data': {'uses': 'p.json as n'}}, context=None),
+            # namespaces written with characters that are not letters, digits or underscores, and a composed one written out
+            dict(classes=[dict(K(0, 'Abc', params=[P('x'), P('y', default=[5])]), name='abc')],
+                 files={'d.json': {'tasks': ['@M.*'], 'x': 1}},
+                 base={'name': 'm', 'data': {'uses': ['d.json as train-set', 'd.json as set.2', 'd.json as outer::inner', 'd.json as train']}},
+                 context={'dict': {'for_namespaces': {'train-set': {'y': 99}, 'train': {'y': 98}, 'set.2': {'y': 97}, 'outer': {'y': 96},
+                                                      'outer::inner': {'y': 95}}}}, hist=True),
+            # a string with braces that are no placeholder and a backslash or quote, in a config built with global_vars
+            dict(classes=[dict(K(0, 'Abc', params=[P('pattern'), P('tpl')]), name='abc'), dict(K(1, 'Dep', meta_inputs=[{'cls': 0}]), name='dep')],
+                 files={}, base={'name': 'm', 'data': {'tasks': ['@M.*'], 'pattern': '\\d{4}-{X}', 'tpl': ["it's {}", 'part_{}.json', '\\w{2,3}']}},
+                 context=None, global_vars={'X': 'v', 'Y': 7}),
             # an input in a nested namespace whose name contains the outer namespace's name
             dict(classes=[dict(K(0, 'Producer'), name='producer'),
                           dict(K(1, 'Consumer', meta_inputs=[{'name': 'basemodel::producer'}]), name='consumer')],
